@@ -184,20 +184,29 @@ void World::exec(const std::vector<std::string> &t)
         out("val " + std::to_string(need(I(t[1])).get()));
     } else if (o == "phas") {
         out("val " + std::to_string(need(I(t[1])).hasBinding() ? 1 : 0));
-    } else if (o == "pobs") {
+    } else if (o == "passign") {
+        need(I(t[1])) = need(I(t[2])).get(); // operator=(T const &) with a reference into the other property
+    } else if (o == "pobs" || o == "pobsset") {
         P &p = need(I(t[1]));
         int label = I(t[3]);
+        const int target = o == "pobsset" ? I(t[5]) : -1;
         obsOwner[label] = I(t[1]);
         ConnectionHandle h;
         switch (I(t[2])) {
         case 0:
-            h = p.valueAboutToChange().connect([label](const int &oldv, const int &newv) {
+            h = p.valueAboutToChange().connect([label, target](const int &oldv, const int &newv) {
                 out("notify " + std::to_string(label) + " about " + std::to_string(oldv) + " " + std::to_string(newv) + " seen " + g_w->seen(label));
+                if (target >= 0)
+                    if (P *q = g_w->prop(target))
+                        q->set(oldv);
             });
             break;
         case 1:
-            h = p.valueChanged().connect([label](const int &v) {
+            h = p.valueChanged().connect([label, target](const int &v) {
                 out("notify " + std::to_string(label) + " changed " + std::to_string(v) + " seen " + g_w->seen(label));
+                if (target >= 0)
+                    if (P *q = g_w->prop(target))
+                        q->set(v);
             });
             break;
         default:
